@@ -120,6 +120,14 @@ class Program:
                 self._index_module(mi, is_pkg=fn == "__init__.py")
 
     def _index_module(self, mi: ModuleInfo, is_pkg: bool) -> None:
+        # function-local imports count too (approximation: module-wide visibility)
+        for st in ast.walk(mi.tree):
+            if isinstance(st, ast.Import) and st not in mi.tree.body:
+                for a in st.names:
+                    mi.imports.setdefault(a.asname or a.name.split(".")[0], a.name if a.asname else a.name.split(".")[0])
+            elif isinstance(st, ast.ImportFrom) and st not in mi.tree.body and not st.level:
+                for a in st.names:
+                    mi.imports.setdefault(a.asname or a.name, f"{st.module}.{a.name}")
         for st in mi.tree.body:
             if isinstance(st, ast.Import):
                 for a in st.names:
